@@ -1,6 +1,8 @@
 """C09 - reading RING text always ends with a query or a RING error.
 
-0 deviations: the seeds.  1 deviation: every character-offset truncation;
+0 deviations: the seeds (also laid out over several lines, and the long-input
+family: every chain construct of the grammar with up to 1200 links, digit runs
+up to 5000 digits).  1 deviation: every character-offset truncation;
 every single-token deletion, duplication, substitution by and insertion of each
 lexeme of the RING vocabulary.  2 deviations (thorough): all pairs of
 token-level edits on the shortest seeds.  Plus all strings of length <= 4 (5)
@@ -16,7 +18,11 @@ from ..domains import ringtexts as RT
 LEVEL = 'exploration'
 BOUND = {'quick': 'all seeds; every truncation; every 1-token edit over %d '
                   'lexemes; all strings of length <= 4 over 15 characters; all '
-                  'sequences of <= 2 of %d keywords' % (len(RT.LEXEMES), len(RT.KEYWORDS)),
+                  'sequences of <= 2 of %d keywords; every seed in 4 multi-line '
+                  'layouts with all truncations and 1-token deletions / '
+                  'duplications; 14 chain constructs x 5 lengths up to 1200 '
+                  'links; every digit token replaced by runs of up to 5000 '
+                  'digits' % (len(RT.LEXEMES), len(RT.KEYWORDS)),
          'thorough': 'more generated seeds; 2-token edits (reduced lexeme set) '
                      'of the 12 shortest seeds; strings of length <= 5; keyword '
                      'sequences of length <= 3'}
@@ -32,8 +38,10 @@ ASSUMPTIONS = ['work budget 2000 + 200*len(text) calls of ParseState.peek '
                'if ParseState/peek cannot be found the check falls back to a '
                'wall-clock watchdog and reports "consumed in full" as not '
                'evaluated',
-               'inputs are at most a few hundred characters; recursion depth '
-               'on very long inputs is outside the bound']
+               'long inputs: each right-recursive chain of the grammar with up '
+               'to 1200 (thorough: 3000) links, digit runs up to 5000 digits; '
+               'whether such a text is accepted or refused with a RING error '
+               'is not judged, only that nothing else escapes']
 MANIFEST = dict(
     technique='deviation-bounded exhaustive enumeration of reader inputs (0, 1, '
               '2 token edits of seeds; complete short-string languages) with a '
@@ -191,11 +199,24 @@ def shards(tier, seed):
             n = len(RT.TOKRE.findall(ss[i]))
             for p in range(n):
                 out.append(('two', i, p))
+    for i in range(len(ss)):
+        out.append(('layout', i))
+    for n in RT.LONG_N[tier]:
+        out.append(('long', n))
+    out.append(('digits',))
     for c in RT.SHORT_ALPHABET:
         out.append(('short', c))
     for k in range(len(RT.KEYWORDS)):
         out.append(('kw', k))
     return out
+
+
+LAYOUT_K = (1, 2, 3, 5)
+
+
+def layout(toks, k):
+    lines = [' '.join(toks[i:i + k]) for i in range(0, len(toks), k)]
+    return '\n'.join('  ' * (j % 3) + ln for j, ln in enumerate(lines))
 
 
 LEX2 = ['fragment', 'labeled', 'bond', 'to', 'C', '{', '}', '(', ')', ',', '!',
@@ -239,6 +260,46 @@ def run_shard(shard, tier):
                 seen.add(text)
                 run_text(R, text, 'two-edits')
         R.sample(dict(seed=s[:120], two_edit_variant=text[:120]), limit=1)
+    elif shard[0] == 'layout':
+        # the same seed laid out over several lines (k tokens per line, varying
+        # indentation): every truncation, every one-token deletion/duplication
+        toks = RT.TOKRE.findall(ss[shard[1]])
+        seen = set()
+        for k in LAYOUT_K:
+            base = layout(toks, k)
+            for i in range(len(base) + 1):
+                if base[:i] not in seen:
+                    seen.add(base[:i])
+                    run_text(R, base[:i], 'layout%d-truncation' % k)
+            edits = []
+            for i in range(len(toks)):
+                edits.append(toks[:i] + toks[i + 1:])
+                edits.append(toks[:i] + [toks[i]] + toks[i:])
+                if tier == 'thorough':
+                    edits += [toks[:i] + [a] + toks[i + 1:] for a in LEX2]
+            for t in edits:
+                text = layout(t, k)
+                if text not in seen:
+                    seen.add(text)
+                    run_text(R, text, 'layout%d-edit' % k)
+        R.sample(dict(layout=layout(toks, 3)[:160]), limit=1)
+    elif shard[0] == 'long':
+        for name, text in RT.long_texts(shard[1]):
+            cls = run_text(R, text, 'long:%s:%d' % (name, shard[1]))
+            R.extra['long:%s:%s' % (name, cls.split('@')[0])] += 1
+            # and cut in the middle / one character short
+            run_text(R, text[:len(text) // 2], 'long-truncated')
+            run_text(R, text[:-1], 'long-truncated')
+    elif shard[0] == 'digits':
+        # every digit token of every seed replaced by runs of digits
+        for s in ss:
+            toks = RT.TOKRE.findall(s)
+            for i, t in enumerate(toks):
+                if len(t) == 1 and t.isdigit():
+                    for L in RT.DIGIT_RUNS:
+                        for d in ('7', '0'):
+                            run_text(R, ' '.join(toks[:i] + [d * L] + toks[i + 1:]),
+                                     'digit-run')
     elif shard[0] == 'short':
         n = 4 if tier == 'quick' else 5
         if shard[1] == RT.SHORT_ALPHABET[0]:
